@@ -680,10 +680,8 @@ def ref_parse_equation(eq):
         if kind == 'VERBATIM':
             continue
         sym = (name, kind, idx, idx, None, None)
-        if kind == 'FUNCTION':
-            if name not in funcs:
-                syms[name] = sym
-                funcs[name] = sym
+        if kind == 'FUNCTION':          # b45daa1: combined like every other symbol
+            syms[name] = _combine(syms.get(name, sym), sym)
             continue
         if kind == 'ENDOGENOUS':
             sym = (name, kind, idx, idx, equation, code)
